@@ -50,7 +50,9 @@ structure Method where
   selector : String
   clientStreaming : Bool
   serverStreaming : Bool
-  input : List Field        -- `self.messages[input_type].fields`, keyed by field name
+  input : List Field        -- `method_descriptor.input.fields`, keyed by field name: the method's OWN request message,
+                            -- wherever it is declared (since the `fix:` commit f83c180; before, `self.messages[input_type]`
+                            -- raised a bare KeyError for a request message declared in a file that is not generated)
 deriving Repr, DecidableEq
 
 /-- `google.api.MethodSettings` as far as it is read here -/
